@@ -410,6 +410,9 @@ _FUNCS = {
     'kcls': lambda k: (lambda i: _CLS_FORMS[k % 3][i % 2](i % k)),
     'divcls': lambda k: (lambda i: _CLS_FORMS[k % 3][i % 2](i // k)),       # (one family per predicate: numpy scalars do not compare with tuples)
     'divnan': lambda k: (lambda i: _THE_NAN if (i // k) % 3 == 1 else (i // k)),
+    # a composite criterion with a missing field: the SAME NaN object inside every tuple.  Python's tuple != looks at identity first,
+    # so equal tuples holding that object are equal - the criterion changes only when the other field does
+    'divnant': lambda k: (lambda i: (i // k, _THE_NAN)),
     # different keys whose hashes collide: hash(-1) == hash(-2); ints congruent mod 2**61-1 share a hash
     'kneg': lambda k: (lambda i: -1 - (i % k)),
     'kmers': lambda k: (lambda i: (i % k) * (2 ** 61 - 1)),
@@ -716,7 +719,7 @@ def out_type(node, t):
     return o
 
 
-INT_FUNCS = {'kapprox', 'kobj', 'sub', 'tonp', 'knp', 'modnp', 'divnp', 'divnpf', 'npgt', 'kcent', 'divcent', 'divbool', 'divnone', 'divnan', 'divobj', 'divobjt', 'divtag', 'divcls', 'kcls', 'divsloppy', 'ksloppy', 'add', 'mul', 'mod', 'div', 'neg', 'pair', 'pairmod', 'rep', 'upto', 'opt', 'half', 'tofloat', 'nt', 'even', 'odd',
+INT_FUNCS = {'kapprox', 'kobj', 'sub', 'tonp', 'knp', 'modnp', 'divnp', 'divnpf', 'npgt', 'kcent', 'divcent', 'divbool', 'divnone', 'divnan', 'divnant', 'divobj', 'divobjt', 'divtag', 'divcls', 'kcls', 'divsloppy', 'ksloppy', 'add', 'mul', 'mod', 'div', 'neg', 'pair', 'pairmod', 'rep', 'upto', 'opt', 'half', 'tofloat', 'nt', 'even', 'odd',
              'modeq', 'modeqnone', 'modeqstr', 'modne', 'modtruthy', 'kt', 'ks', 'kbig', 'kf', 'kmix', 'kneg', 'kmers', 'ktneg', 'divt', 'divs', 'divbig', 'divhuge', 'divf', 'divpar'}
 NUM_FUNCS = {'gt', 'lt', 'trunc', 'scale10'}
 ANY_FUNCS = {'id', 'digest', 'dgt', 'true', 'false', 'kdig', 'digpar', 'ktype'}
